@@ -5,6 +5,7 @@ import Nri.Proofs.LibMemInv
 import Nri.Proofs.LibMemTrack
 import Nri.Proofs.LibMemUpd
 import Nri.Proofs.LibMemFit
+import Nri.Proofs.LibMemCommit
 import Nri.Props.C06
 import Nri.Gen.LibmemFacts
 /-!
@@ -270,6 +271,14 @@ theorem allocate_updates_exact (s : St) (h : HInv s) (r : Req) (res : Result)
     alGet res.updates id = some z ↔
       (id ≠ r.id ∧ ∃ q ∈ (s.Allocate r).1.reqs, q.id = id ∧ q.zone = z ∧ z ≠ zoneIn s id) :=
   Allocate_updates_exact s h.wf h.placed r res hok id z
+
+/-- **exact updates (Realloc)**: likewise for a successful `Realloc` (a no-op re-allocation reports
+nothing). -/
+theorem realloc_updates_exact (s : St) (h : HInv s) (id : String) (nodes : Mask) (types : Nat) (res : Result)
+    (hok : (s.Realloc id nodes types).2 = .ok res) (id' : String) (z : Mask) :
+    alGet res.updates id' = some z ↔
+      (id' ≠ id ∧ ∃ q ∈ (s.Realloc id nodes types).1.reqs, q.id = id' ∧ q.zone = z ∧ z ≠ zoneIn s id') :=
+  Realloc_updates_exact s h.wf h.placed id nodes types res hok id' z
 
 /-! ### histories: every assigned zone fits, after every operation
 
